@@ -1499,7 +1499,7 @@ def canon_rules(rules: Optional[list], pats: list) -> Any:
 PAYLOAD_SELECTORS = ["<cnt>", "<cnt>.<d>", "<hdr>..<d>", "<hdr>.<cnt>.<d>", "<cnt>[0]", "<hdr>.<cnt>[0:1]", "(<hdr>.<cnt>).<d>", "<hdr>.(<cnt>.<d>)",
                      "<hdr>{*<d>}", "<hdr>..<d>[0]"]
 PAYLOAD_EXPRS = ["int(%s)", "int(str(%s)) + 1", "max(1, int(%s))", "int(%s) * 2 - 1", "len(str(%s))", "int(%s) if True else 3", "int(str(%s)[0:1])"]
-GEN_EXPRS = ["dup(%s)", "str(%s) * 2", "dup(%s) + dup(%s)", "'x' + str(%s)", "dup(str(%s)[0:1])", "dup(|%s|)", "dup(len(*%s))", "'k'"]
+GEN_EXPRS = ["dup(%s)", "str(%s) * 2", "dup(%s) + dup(%s)", "'x' + str(%s)", "dup(str(%s)[0:1])", "dup(%s, %s)", "'k'"]
 
 
 def gen_payload_spec(rng) -> str:
@@ -1527,9 +1527,10 @@ def gen_payload_spec(rng) -> str:
         reps.append(operand + b)
     lines.append("<body> ::= " + rng.choice([" ", " | "]).join(reps))
     g = rng.choice(GEN_EXPRS)
-    g = g % tuple(sel() for _ in range(g.count("%s")))
+    # a generator takes SYMBOLS as arguments (FandangoSpec reads `.symbol` of each of its searches)
+    g = g % tuple(rng.choice(["<cnt>", "<d>", "<hdr>"]) for _ in range(g.count("%s")))
     lines.append("<x> ::= 'x' | 'xx'" + (" := " + g if rng.random() < 0.7 else ""))
-    code = "def dup(x):\n    return str(x) * 2\n\n"
+    code = "def dup(x, y=''):\n    return str(x) * 2\n\n"
     return code + "\n".join(lines) + "\n"
 
 
